@@ -4,6 +4,32 @@ import json, os, sys
 HERE = os.path.dirname(os.path.dirname(os.path.abspath(__file__)))
 
 CHECKS = {
+ "C02": dict(
+    category="model_checking",
+    text=("All 517 object images of the Vector-produced reference logs and the shipped .lobj samples (independent "
+          "extraction with struct + zlib) are decoded and re-encoded by the real codecs; derived images (single-byte "
+          "substitutions - every value in the first 80 bytes in the thorough tier - and aligned 2/4/8-byte boundary "
+          "groups) are judged when still decoded completely: values must come back, recomputed members are compared "
+          "against the recomputed value, bytes no member depends on are zero by design, and a completely decoded image "
+          "must re-encode to the same size. TLC validates the per-image records against Framing.tla (ImageOK) with the "
+          "frozen registry and padding set."),
+    design_ref="DESIGN.md §6 C02",
+    note=("There is no per-field layout table in TLA+ (DESIGN §8): the Vector images are the format oracle. 'Same shape' "
+          "uses the decoded object's containers plus the size-preservation rule; a seeded change inside the known "
+          "CanFdMessage64 ext-data finding is masked (seeded/C02-m1)."),
+    technique="reference-image replay with sensitivity analysis + TLC record validation against the frozen registry"),
+ "C03": dict(
+    category="model_checking",
+    text=("For every creatable class x payload shapes (lengths 0..5, mixed, 300, 64 KiB+1) x selector/scalar variants "
+          "(small API versions, boundary values, stale length fields) the real encoder's output and the decoder's "
+          "behaviour on it are recorded; TLC validates every record against Framing.tla (FramedAsDeclared) using the "
+          "frozen header sizes, type registry and padding set of Registry.tla: header-size field, object size = bytes "
+          "emitted without padding, padding = size mod 4 zero bytes exactly for the padding types, decode consumes "
+          "what was emitted, re-encoding the decoded object reproduces the bytes. Concatenations of 50 random "
+          "encodings are walked by header fields alone; thorough tier repeats the records under ASan."),
+    design_ref="DESIGN.md §6 C03",
+    note="Scalar values are seeded samples; classes and payload-length residues are enumerated.",
+    technique="TLA+ framing/registry spec + TLC validation of encoder/decoder records (M3 vectors)"),
  "C04": dict(
     category="model_checking",
     text=("Container.tla states what a finished file must look like as a function of the written bytes and the "
@@ -115,6 +141,16 @@ CHECKS = {
     note=("Bounded: positions <= 4..6, container sizes 1..3. write(container) only while no container is open at the "
           "put position (Protocol)."),
     technique="TLA+ sequential spec + TLC exhaustive + M1 edge replay on the real object"),
+ "C17": dict(
+    category="model_checking",
+    text=("Registry.tla freezes code -> class (the annotated include list of File.h) and Framing.tla's "
+          "FactoryConsistent is validated by TLC on records of File::createObject for all codes 0..255, boundary and "
+          "2000 seeded 32-bit codes (class created, constructor code, class the code maps back to). Default-constructed "
+          "objects of every class are built in heap memory pre-filled with 4 patterns (members and encodings must be "
+          "identical) and written/decoded (class preserved)."),
+    design_ref="DESIGN.md §6 C17",
+    note="Registry frozen from the pinned tree's documentation, cross-checked against the reference logs' type codes.",
+    technique="TLA+ registry + TLC record validation + poisoned-heap construction"),
  "C16": dict(
     category="model_checking",
     text=("TLC checks FIFO/exactly-once, capacity, exact-EOF and abort on the specs ObjectQueueSeq (all non-blocking "
